@@ -9,9 +9,12 @@
                    error:   [gate 2] lock; if o.prom==p {o.prom=nil}; unlock      (GClear)
                             [gate 3] SetResult(Canceled if ctx.Err()!=nil else err) (GSet)
                    success: [gate 3] SetResult(value)                              (GSet)
+                   SetResult(r): isDone.Swap(true); [site 0] result,err := r; close(done)   (GPub r, then GDone r)
    The Once carries its own promise component: a promise is identified with the goroutine that
    resolves it (index into gs); "done closed and result published" is pc GDone r.  Nobody but that
-   goroutine calls SetResult on it, so isDone/swap is not a separate step here (C11 treats it).
+   goroutine calls SetResult on it; the window inside SetResult between the swap of isDone and the publication
+   (fields written, done closed) is pc GPub r: the promise is NOT yet resolved for any waiter (done is open),
+   so a caller that reaches Await in that window blocks like on any unresolved promise.
 
    A caller that wakes up from Await with a Canceled result re-runs the loop head: it returns Canceled
    when its OWN context is cancelled and otherwise goes to gate 1 again.  This covers both "my context
@@ -31,7 +34,8 @@ Inductive gpc :=
 | GInCb (ec : bool)       (* inside the user callback; ec: its context was already cancelled on entry *)
 | GClear (o : res)        (* callback returned an error o, parked before the clear section *)
 | GSet (o : res)          (* parked before SetResult *)
-| GDone (r : res).        (* promise resolved with r, done closed *)
+| GPub (r : res)          (* inside Promise.SetResult(r): isDone swapped, result fields not yet written, done still open (site 0) *)
+| GDone (r : res).        (* promise resolved with r: fields written, done closed *)
 Record gor := { gp : gpc; gsp : nat (* the caller whose context the callback captured *) }.
 
 Record st := { prom : option nat; cs : list caller; gs : list gor }.
@@ -140,7 +144,8 @@ Definition step (s : st) (e : ev) : st :=
       | GClear o =>
         {| prom := match prom s with Some p => if Nat.eqb p g then None else Some p | None => None end;
            cs := cs s; gs := setg s g (GSet o) |}
-      | GSet o => {| prom := prom s; cs := cs s; gs := setg s g (GDone (final_res s y o)) |}
+      | GSet o => {| prom := prom s; cs := cs s; gs := setg s g (GPub (final_res s y o)) |}
+      | GPub r => {| prom := prom s; cs := cs s; gs := setg s g (GDone r) |}
       | _ => s
       end
     | None => s
@@ -155,14 +160,15 @@ Definition in_cb (y : gor) : bool := match gp y with GInCb _ => true | _ => fals
 Definition holds (y : gor) : bool :=
   match gp y with
   | GInCb _ | GClear _ => true
-  | GSet o | GDone o => is_ok o
+  | GSet o | GPub o | GDone o => is_ok o
   end.
 Definition succeeded (s : st) (g : nat) (v : N) : Prop :=
-  exists y, nth_error (gs s) g = Some y /\ (gp y = GSet (RVal v) \/ gp y = GDone (RVal v)).
+  exists y, nth_error (gs s) g = Some y /\ (gp y = GSet (RVal v) \/ gp y = GPub (RVal v) \/ gp y = GDone (RVal v)).
 (* the callback returned an error and the clear section has run *)
 Definition failed (s : st) (g : nat) : Prop :=
   exists y, nth_error (gs s) g = Some y /\
-    ((exists o, gp y = GSet o /\ is_ok o = false) \/ (exists r, gp y = GDone r /\ is_ok r = false)).
+    ((exists o, gp y = GSet o /\ is_ok o = false) \/ (exists r, gp y = GPub r /\ is_ok r = false) \/
+     (exists r, gp y = GDone r /\ is_ok r = false)).
 
 Definition c_enabled (s : st) (x : caller) : bool :=
   match cp x with
@@ -170,7 +176,7 @@ Definition c_enabled (s : st) (x : caller) : bool :=
   | CAwait p => cc x || match done_res s p with Some _ => true | None => false end
   | CRet _ _ => false
   end.
-Definition g_enabled (y : gor) : bool := match gp y with GClear _ | GSet _ => true | _ => false end.
+Definition g_enabled (y : gor) : bool := match gp y with GClear _ | GSet _ | GPub _ => true | _ => false end.
 (* no internal step (Sect, WakeDone, WakeCtx, GStep) is enabled; a callback inside user code waits for the environment *)
 Definition quiescent (s : st) : bool :=
   forallb (fun x => negb (c_enabled s x)) (cs s) && forallb (fun y => negb (g_enabled y)) (gs s).
